@@ -34,6 +34,7 @@ type Spec struct {
 	Out     string              `json:"out"`
 	LogKeep int                 `json:"log_keep"`
 	GMP     string              `json:"-"` // GOMAXPROCS of the worker ("" = 1)
+	Batch   int                 `json:"batch"`
 }
 
 type Result struct {
@@ -56,6 +57,10 @@ type Result struct {
 	Params     json.RawMessage     `json:"params,omitempty"`
 	Log        []string            `json:"log,omitempty"`
 	Panic      string              `json:"panic,omitempty"`
+	Sub        int                 `json:"sub"`
+	SubNontriv int                 `json:"sub_nontrivial"`
+	Sigs       []string            `json:"sigs,omitempty"`
+	SubSeed    uint64              `json:"sub_seed,omitempty"`
 	// filled by the driver
 	exit   int
 	stderr string
@@ -165,13 +170,16 @@ type propDef struct {
 	QuickSecs int
 	ThorSecs  int
 	Engine    string
+	Batch     int // sub-runs per worker process (component worlds)
 }
 
 var props = map[string]propDef{
-	"C01": {"C01", "proxy", 40, 600, "W-proxy"},
-	"C02": {"C02", "proxy", 40, 600, "W-proxy"},
-	"C03": {"C03", "proxy", 40, 600, "W-proxy"},
-	"C10": {"C10", "proxy", 40, 600, "W-proxy"},
+	"C01": {"C01", "proxy", 40, 600, "W-proxy", 0},
+	"C02": {"C02", "proxy", 40, 600, "W-proxy", 0},
+	"C03": {"C03", "proxy", 40, 600, "W-proxy", 0},
+	"C10": {"C10", "proxy", 40, 600, "W-proxy", 0},
+	"C05": {"C05", "lb", 30, 600, "W-lb", 200},
+	"C06": {"C06", "lb", 30, 600, "W-lb", 50},
 }
 
 // ---- known findings ----
@@ -259,7 +267,14 @@ func newAgg() *agg {
 }
 
 func (a *agg) add(seed uint64, r *Result, wantProp string) {
-	a.runs++
+	sub := r.Sub
+	if sub <= 0 {
+		sub = 1
+	}
+	a.runs += sub
+	if r.SubSeed != 0 {
+		seed = r.SubSeed
+	}
 	a.wallMs += r.wallMs
 	if r.Infra != "" {
 		if len(a.infra) < 5 {
@@ -269,7 +284,12 @@ func (a *agg) add(seed uint64, r *Result, wantProp string) {
 		}
 		return
 	}
-	if r.Nontrivial {
+	if len(r.Sigs) > 0 || r.SubNontriv > 0 {
+		a.nontrivial += r.SubNontriv
+		for _, sg := range r.Sigs {
+			a.sigs[sg] = true
+		}
+	} else if r.Nontrivial {
 		a.nontrivial++
 		a.sigs[r.Signature] = true
 	}
@@ -538,7 +558,7 @@ func cmdCheck(args []string) int {
 					return
 				}
 				seed := sim.Mix(base, i)
-				r := runWorker(Spec{Prop: pd.ID, World: pd.World, Seed: seed, Tier: *tier})
+				r := runWorker(Spec{Prop: pd.ID, World: pd.World, Seed: seed, Tier: *tier, Batch: pd.Batch})
 				mu.Lock()
 				a.add(seed, r, id)
 				mu.Unlock()
